@@ -301,7 +301,7 @@ def gen_header_sweep(g, entries=None, full=False):
             counts = sorted(set(c & 31 for c in [0, 1, 2, cap - 1, cap, cap + 1, 31] if c >= 0))
             for cnt in counts:
                 for pbit, last in [(0, None), (1, 0), (1, 1), (1, 4), (1, (total - mn) & 0xff), (1, (total - mn + 1) & 0xff)]:
-                    if not full and pbit and cnt not in (0, cap) :
+                    if not full and pbit and cnt not in (0, cap, cap + 1):
                         continue
                     b = bytearray(g.rawbytes(total))
                     b[0] = 0x80 | (0x20 if pbit else 0) | cnt
@@ -343,7 +343,7 @@ class RoundTrip(Prop):
         # the same kinds of configuration reached through other call paths (owned variants, PacketBuilder,
         # setters repeated): what is accepted must still parse back to the final configuration
         from . import props2
-        out += [l for l in props2.history_cases(g, n // 4, kinds=self.members) if l.startswith('hist d ') or l.startswith('hist pb ')]
+        out += [l for l in props2.history_cases(g, n // 4, kinds=self.members) if l.split()[1].rstrip('q') in ('d', 'pb')]
         return out
     def relevant(self, line, impl, model):
         if kind_of(line) == 'hist':
@@ -377,15 +377,29 @@ class C06(Prop):
         for _ in range(n // 5):
             out.append('chunk e0:aa,e-1:55,e3:aa,a0:00 ' + g.chunk(valid=not g.chance(0.2)))
             out.append('item e0:aa,e-1:55,e3:aa,a0:00 ' + g.item(valid=not g.chance(0.2), nonzero=False))
+        # builders reached through call histories, half of them queried (size, padding, scratch write) after every
+        # call: what the final calculate_size announces must still be what the final write_into writes
+        from . import props2
+        out += [l for l in props2.history_cases(g, n // 5) if kind_of(l) == 'hist']
         return out
     def relevant(self, line, impl, model):
-        return kind_of(line) in ('build', 'chunk', 'item')
+        return kind_of(line) in ('build', 'chunk', 'item', 'hist')
     def proj(self, line, obs):
         return (obs.get('size'), tuple(r for r, _ in writes_of(obs.get('writes'))))
     def oracle(self, line, impl, model):
         fails = []
         ws = writes_of(impl.get('writes'))
         size = impl.get('size')
+        if kind_of(line) == 'hist':
+            # one write into a buffer of exactly the announced size (or an empty one when the size is an error)
+            if not (ok_str(size) or err_str(size)):
+                return ['calculate_size did not return normally: %s' % size]
+            for r, b in ws:
+                if b is None or 'PANIC' in r:
+                    fails.append('write_into panicked after this call history (size announced: %s)' % size)
+                elif r != size:
+                    fails.append('calculate_size announced %s, write_into into a buffer of exactly that size returned %s' % (size, r))
+            return fails
         n = size_n(size) if size is not None else None
         if size is not None and not (ok_str(size) or err_str(size)):
             return ['calculate_size did not return normally: ' + size]
@@ -537,9 +551,82 @@ def huge_inputs(g):
             'parse app %s' % hx(bytes([0x80, 204, 0xff, 0xff]) + g.rawbytes(8)),
             'parse compound %s' % hx(bytes([0x80, 201, 0xff, 0xff]) + g.rawbytes(4))]
 
+def carry_tiles(g):
+    """compounds with tiles whose length field has an all-ones low byte (0x00ff, 0x01ff, 0x02ff, 0x03ff: carries
+    between the two length octets), well tiled and not"""
+    out = []
+    bye = bytes([0x80, 203, 0, 0])
+    for lf in (0x00ff, 0x01ff, 0x02ff, 0x03ff, 0x0100, 0x01fe):
+        n = 4 * (lf + 1)
+        tile = bytes([0x80, 204, lf >> 8, lf & 0xff]) + g.rawbytes(8) + bytes(n - 12)
+        out.append('parse compound %s' % hx(tile + bye))
+        out.append('parse compound %s' % hx(bye + tile))
+        # the header announces n bytes, only half of them are there, then a BYE: not a tiling
+        out.append('parse compound %s' % hx(tile[:n // 2] + bye))
+        out.append('parse packet %s' % hx(tile))
+    return out
+
+def rpsi_pb_sweep():
+    """raw RPSI control information of 4 and 8 bytes with every padding-bit count around the body length"""
+    out = []
+    for ln in (4, 8):
+        for pb in list(range(0, 8 * (ln - 2) + 10)) + [127, 128, 255]:
+            b = bytes([pb, 0x60 | (pb & 1)]) + bytes([0xa5] * (ln - 2))
+            out.append('parse fci:rpsi %s' % hx(b))
+            if pb % 3 == 0:
+                out.append('parse pfb %s' % hx(bytes([0x83, 206, 0, 2 + ln // 4]) + bytes([0, 0, 0, 1, 0, 0, 0, 2]) + b))
+    return out
+
+def fmt_sweep(g):
+    """both feedback kinds x all 32 format values x a body that is valid for each of the five FCI types"""
+    bodies = [bytes([0, 5, 0, 3]),                         # one NACK word / one SLI word
+              bytes([0, 0, 0, 9, 7, 0, 0, 0]),             # one FIR entry
+              bytes([16, 96, 0xaa, 0xbb, 0, 0, 0, 0]),     # RPSI with 16 padding bits
+              b'']                                         # PLI
+    out = []
+    for pt in (205, 206):
+        for fmt in range(32):
+            for body in bodies:
+                total = 12 + len(body)
+                out.append('parse %s %s' % ('tfb' if pt == 205 else 'pfb',
+                           hx(bytes([0x80 | fmt, pt]) + (total // 4 - 1).to_bytes(2, 'big') + g.rawbytes(8) + body)))
+    return out
+
+def sdes_pad_sweep():
+    """SDES packets whose chunk area (everything before the padding) ends at every residue mod 4: one chunk of one
+    item of 2..9 bytes followed by 0..3 zero bytes, then the padding count that makes the total a multiple of 4 -
+    including counts that are not multiples of 4, which the parsers accept.  Fixed, no randomness."""
+    out = []
+    for il in range(2, 10):
+        item = bytes([1, il - 2]) + b'a' * (il - 2)
+        for z in range(4):
+            body = bytes([0x12, 0x34, 0x56, 0x78]) + item + bytes(z)
+            for p in range(1, 9):
+                total = 4 + len(body) + p
+                if total % 4:
+                    continue
+                pkt = bytes([0xa1, 202]) + (total // 4 - 1).to_bytes(2, 'big') + body + bytes(p - 1) + bytes([p])
+                out.append('parse sdes %s' % hx(pkt))
+    # the same chunk areas with a second chunk whose SSRC starts with zero bytes
+    for il in (3, 4, 5, 6):
+        item = bytes([1, il - 2]) + b'b' * (il - 2)
+        fill = bytes(4 - (il % 4)) if il % 4 else bytes(4)
+        body = bytes([0, 0, 0, 9]) + item + fill + bytes([0, 0, 1, 0, 2, 1, 0x63, 0])
+        for p in (0, 4, 5):
+            total = 4 + len(body) + p
+            total += (-total) % 4
+            padb = total - 4 - len(body)
+            pkt = bytes([0x82 | (0x20 if padb else 0), 202]) + (total // 4 - 1).to_bytes(2, 'big') + body + \
+                (bytes(padb - 1) + bytes([padb]) if padb else b'')
+            out.append('parse sdes %s' % hx(pkt))
+    return out
+
 def gen_parse_mixed(g, h, n, tier):
     """inputs for every parsing entry point: valid images, mutations, raw random bytes, cross-entry"""
-    out = []
+    out = sdes_pad_sweep()
+    extra = carry_tiles(g) + rpsi_pb_sweep() + fmt_sweep(g)
+    out += [l.replace('parse sdes ', 'parse packet ', 1) for l in out[::3]] + [l.replace('parse sdes ', 'parse compound ', 1) for l in out[1::3]]
+    out += extra
     pairs = gen_parse_inputs(g, h, n, malformed_ratio=0.5)
     for e, b in pairs:
         out.append('parse %s %s' % (e, hx(b)))
@@ -621,7 +708,7 @@ class C08(Prop):
             'that passes the version and type checks')
     def cases(self, g, tier, h):
         n = 600 if tier == 'quick' else 25000
-        out = gen_header_sweep(g, full=(tier != 'quick')) + huge_inputs(g)
+        out = gen_header_sweep(g, full=(tier != 'quick')) + huge_inputs(g) + sdes_pad_sweep()
         for e, b in gen_parse_inputs(g, h, n, malformed_ratio=0.6):
             out.append('parse %s %s' % (e, hx(b)))
             if g.chance(0.4):
